@@ -76,10 +76,53 @@ Fixpoint yaml_import (y : ynode) (root : node) : node * bool :=
       (r, ok)
   end.
 
+(* vnaproperty_import_yaml_from_string / _from_file (after fix DP2): the existing content of the
+   root is deleted, then the document is imported *)
+Definition import_document (y : ynode) (root : node) : node * bool :=
+  yaml_import y (fst (vdelete root dot)).
+
 (* one admissible behaviour of "emit then parse": every scalar that may come back plain does *)
 Fixpoint yaml_rt_ideal (y : ynode) : ynode :=
   match y with
   | YScalar v st => YScalar v (match st with YAny => YPlain | s => s end)
   | YMapping kv => YMapping (map (fun p => let '(k, v) := p in (yaml_rt_ideal k, yaml_rt_ideal v)) kv)
   | YSequence l => YSequence (map yaml_rt_ideal l)
+  end.
+
+(* ------------------------------------------------------------------ properties inside a calibration file.
+   vnacal_save adds the pair "properties" -> _vnaproperty_yaml_export(root) to the top-level mapping
+   (global properties, always present: a NULL root is written as ~) and to every calibration's
+   mapping; the other pairs of those mappings (version, calibrations, name, type, data ...) are
+   abstract here.  vnacal_load: parse_document imports the value of every scalar key equal to
+   "properties" into vc_properties, in order; parse_calibration remembers the value of the last
+   such key and imports it into the new calibration's cal_properties. *)
+Definition key_properties : bytes := [112; 114; 111; 112; 101; 114; 116; 105; 101; 115].
+
+Definition save_mapping (pre post : list (bytes * ynode)) (props : node) : ynode :=
+  let mk := fun p : bytes * ynode => (YScalar (fst p) YAny, snd p) in
+  YMapping (map mk pre ++ (YScalar key_properties YAny, yaml_export props) :: map mk post).
+
+Definition is_properties_key (k : ynode) : bool :=
+  match k with YScalar kb _ => bytes_eqb kb key_properties | _ => false end.
+
+Definition load_global_properties (y : ynode) (root : node) : node * bool :=
+  match y with
+  | YMapping kv =>
+    fold_left (fun (st : node * bool) p =>
+                 let '(r, ok) := st in
+                 if negb ok then st
+                 else if is_properties_key (fst p) then yaml_import (snd p) r else st)
+              kv (root, true)
+  | _ => (root, false)
+  end.
+
+Definition load_calibration_properties (y : ynode) : node * bool :=
+  match y with
+  | YMapping kv =>
+    match fold_left (fun (found : option ynode) p => if is_properties_key (fst p) then Some (snd p) else found)
+                    kv None with
+    | Some v => yaml_import v NNull
+    | None => (NNull, true)
+    end
+  | _ => (NNull, false)
   end.
